@@ -1,10 +1,39 @@
 // C03 conformance harness: interprets a script of bitset operations (ndjson on stdin) on real
 // xtl::xdynamic_bitset / xdynamic_bitset_view objects and writes, after every call, the call's
 // result and the full observable projection of both objects.  It contains no oracle.
+//
+// Only the public interface of xdynamic_bitset.hpp is used.  A call that does not return within
+// the per-call CPU limit, crashes or is reported by a sanitizer ends the trace with a Crash event
+// (no spec action is called Crash); a script line the driver cannot follow because an earlier
+// call left an object of another kind than the script assumes is answered with the result
+// {"exc":"desync"}, which no spec action yields either.  The runner restarts the driver at the
+// next Reset event.
 #include <xtl/xdynamic_bitset.hpp>
 #include "vjson.hpp"
 #include <iostream>
 #include <algorithm>
+#include <utility>
+#include <sys/time.h>
+
+#ifndef C03_CALL_CPU_LIMIT_S
+#define C03_CALL_CPU_LIMIT_S 3
+#endif
+
+static void on_cpu_limit(int)
+{
+    std::fflush(stdout);
+    vj::crash_line("cpu-limit");
+    _exit(0);
+}
+static void arm_cpu_limit()
+{
+    struct itimerval t;
+    t.it_interval.tv_sec = 0; t.it_interval.tv_usec = 0;
+    t.it_value.tv_sec = C03_CALL_CPU_LIMIT_S; t.it_value.tv_usec = 0;
+    setitimer(ITIMER_PROF, &t, nullptr);
+}
+
+struct desync {};
 
 template <class B>
 struct machine
@@ -51,7 +80,11 @@ struct machine
         return r + "]";
     }
 
+    own_t& own(int k) { if (!s[k].own) throw desync(); return *s[k].own; }
+    view_t& view(int k) { if (!s[k].view) throw desync(); return *s[k].view; }
+
     template <class F> auto with(int k, F&& f) { return s[k].is_view() ? f(*s[k].view) : f(*s[k].own); }
+    // x = object k, y = object src (src may be k itself: self-application)
     template <class F> void with2(int k, int o, F&& f)
     {
         if (s[k].is_view()) { if (s[o].is_view()) f(*s[k].view, *s[o].view); else f(*s[k].view, *s[o].own); }
@@ -88,18 +121,31 @@ struct machine
             std::string blk = "[";
             for (size_t i = 0; i < cx.block_count(); ++i) { if (i) blk += ','; blk += limbs_of(cx.data()[i]); }
             o.kraw("blk", blk + "]");
+            // the same blocks through the block iterators
+            std::string bit = "[";
+            size_t nb = 0;
+            for (auto it = cx.block_begin(); it != cx.block_end(); ++it, ++nb)
+            {
+                if (nb > cx.block_count() + 4) break;
+                if (nb) bit += ',';
+                bit += limbs_of(*it);
+            }
+            o.kraw("bit", bit + "]");
             o.kv("count", (long long)cx.count());
             o.kb("any", cx.any()).kb("all", cx.all()).kb("none", cx.none());
             bool g = true;
-            if (s[k].is_view())
-                for (int i = 0; i < NG; ++i)
-                    g = g && s[k].mem[i] == GPAT && s[k].mem[s[k].nmem - 1 - i] == GPAT;
+            for (int j = 0; j < 2; ++j)          // the caller memory of both slots (views may have been swapped)
+                if (s[j].mem)
+                    for (int i = 0; i < NG; ++i)
+                        g = g && s[j].mem[i] == GPAT && s[j].mem[s[j].nmem - 1 - i] == GPAT;
             o.kb("guard", g);
             return o.obj();
         });
     }
 
-    void make_own(int k, own_t* p) { s[k].view.reset(); s[k].own.reset(p); s[k].mem.reset(); }
+    void make_own(int k, own_t* p) { s[k].view.reset(); s[k].own.reset(p); s[k].mem.reset(); s[k].nmem = 0; }
+
+    static long long clip(size_t v) { return v > (size_t(1) << 30) ? (1ll << 30) : (long long)v; }
 
     // returns the "res" json
     std::string step(const vj::value& e)
@@ -107,12 +153,14 @@ struct machine
         const std::string& op = e.str("op");
         int k = int(e.num("k", 1)) - 1, o = 1 - k;
         const vj::value& a = e.at("a");
+        int src = a.num("self", 0) ? k : o;          // right-hand operand of binary calls
         std::string val = "[]";
         const char* exc = "none";
         try
         {
             if (op == "Reset") { make_own(0, new own_t()); make_own(1, new own_t()); }
             else if (op == "CtorDefault") make_own(k, new own_t());
+            else if (op == "CtorAlloc") make_own(k, new own_t(typename own_t::allocator_type()));
             else if (op == "CtorN") make_own(k, new own_t(size_t(a.num("n"))));
             else if (op == "CtorNV") make_own(k, new own_t(size_t(a.num("n")), a.num("v") != 0));
             else if (op == "CtorIL" || op == "AssignIL")
@@ -120,8 +168,7 @@ struct machine
                 // std::initializer_list cannot be built at run time: use the fixed-arity forms
                 auto b = a.ints("bits");
                 auto B_ = [&](size_t i) { return b[i] != 0; };
-                std::initializer_list<bool> il;
-                #define IL_CASE(n, ...) case n: { std::initializer_list<bool> l = {__VA_ARGS__}; if (op == "CtorIL") make_own(k, new own_t(l)); else s[k].own->assign(l); break; }
+                #define IL_CASE(n, ...) case n: { std::initializer_list<bool> l = {__VA_ARGS__}; if (op == "CtorIL") make_own(k, new own_t(l)); else own(k).assign(l); break; }
                 switch (b.size())
                 {
                     IL_CASE(0, )
@@ -143,7 +190,6 @@ struct machine
                     default: std::fprintf(stderr, "script: unsupported initializer_list length %zu\n", b.size()); std::exit(3);
                 }
                 #undef IL_CASE
-                (void)il;
             }
             else if (op == "CtorBlocks") { auto b = blocks_of(a.at("blocks")); make_own(k, new own_t(b.begin(), b.end())); }
             else if (op == "CtorCopy")
@@ -151,25 +197,52 @@ struct machine
                 own_t* n = s[o].is_view() ? new own_t(*s[o].view) : new own_t(*s[o].own);
                 make_own(k, n);
             }
+            else if (op == "CtorMove")
+            {
+                // re = 1: the moved-from object is destroyed and default-constructed again at once
+                // re = 0: it is kept and observed like any other object
+                own_t* n = new own_t(std::move(own(o)));
+                make_own(k, n);
+                if (a.num("re")) make_own(o, new own_t());
+            }
+            else if (op == "MoveAssign")
+            {
+                own_t& src_o = own(o);
+                own(k) = std::move(src_o);
+                if (a.num("re")) make_own(o, new own_t());
+            }
             else if (op == "CtorView")
             {
                 auto b = blocks_of(a.at("blocks"));
-                s[k].own.reset(); s[k].view.reset();
-                s[k].nmem = b.size() + 2 * NG;
-                s[k].mem.reset(new B[s[k].nmem]);
-                for (size_t i = 0; i < s[k].nmem; ++i) s[k].mem[i] = GPAT;
-                std::copy(b.begin(), b.end(), s[k].mem.get() + NG);
-                s[k].view.reset(new view_t(s[k].mem.get() + NG, size_t(a.num("n"))));
+                size_t nmem = b.size() + 2 * NG;
+                std::unique_ptr<B[]> mem(new B[nmem]);
+                for (size_t i = 0; i < nmem; ++i) mem[i] = GPAT;
+                std::copy(b.begin(), b.end(), mem.get() + NG);
+                std::unique_ptr<view_t> v(new view_t(mem.get() + NG, size_t(a.num("n"))));
+                // the old object is only replaced when the constructor returned
+                s[k].own.reset(); s[k].view = std::move(v); s[k].mem = std::move(mem); s[k].nmem = nmem;
             }
-            else if (op == "AssignNV") s[k].own->assign(size_t(a.num("n")), a.num("v") != 0);
-            else if (op == "AssignBlocks") { auto b = blocks_of(a.at("blocks")); s[k].own->assign(b.begin(), b.end()); }
-            else if (op == "CopyAssign") { if (s[o].is_view()) *s[k].own = *s[o].view; else *s[k].own = *s[o].own; }
-            else if (op == "Resize") s[k].own->resize(size_t(a.num("n")), a.num("v") != 0);
-            else if (op == "Resize1") s[k].own->resize(size_t(a.num("n")));
-            else if (op == "ResizeView") s[k].view->resize(size_t(a.num("n")));
-            else if (op == "Clear") s[k].own->clear();
-            else if (op == "PushBack") s[k].own->push_back(a.num("v") != 0);
-            else if (op == "PopBack") s[k].own->pop_back();
+            else if (op == "AssignNV") own(k).assign(size_t(a.num("n")), a.num("v") != 0);
+            else if (op == "AssignBlocks") { auto b = blocks_of(a.at("blocks")); own(k).assign(b.begin(), b.end()); }
+            else if (op == "CopyAssign")
+            {
+                own_t& x = own(k);
+                if (s[src].is_view()) x = *s[src].view; else x = *s[src].own;
+            }
+            else if (op == "Resize") own(k).resize(size_t(a.num("n")), a.num("v") != 0);
+            else if (op == "Resize1") own(k).resize(size_t(a.num("n")));
+            else if (op == "ResizeView") view(k).resize(size_t(a.num("n")));
+            else if (op == "Clear") own(k).clear();
+            else if (op == "PushBack") own(k).push_back(a.num("v") != 0);
+            else if (op == "PopBack") own(k).pop_back();
+            else if (op == "Reserve")
+            {
+                own_t& x = own(k);
+                x.reserve(size_t(a.num("n")));
+                const own_t& cx = x;
+                val = "[" + std::to_string(clip(cx.capacity())) + "]";
+            }
+            else if (op == "MaxSize") { const own_t& cx = own(k); val = "[" + std::to_string(clip(cx.max_size())) + "]"; }
             else if (op == "SetAll") with(k, [&](auto& x) { x.set(); return 0; });
             else if (op == "ResetAll") with(k, [&](auto& x) { x.reset(); return 0; });
             else if (op == "FlipAll") with(k, [&](auto& x) { x.flip(); return 0; });
@@ -179,17 +252,40 @@ struct machine
             else if (op == "Flip") with(k, [&](auto& x) { x.flip(size_t(a.num("i"))); return 0; });
             else if (op == "ShlEq") with(k, [&](auto& x) { x <<= size_t(a.num("p")); return 0; });
             else if (op == "ShrEq") with(k, [&](auto& x) { x >>= size_t(a.num("p")); return 0; });
-            else if (op == "AndEq") with2(k, o, [&](auto& x, auto& y) { x &= y; });
-            else if (op == "OrEq") with2(k, o, [&](auto& x, auto& y) { x |= y; });
-            else if (op == "XorEq") with2(k, o, [&](auto& x, auto& y) { x ^= y; });
+            else if (op == "AndEq") with2(k, src, [&](auto& x, auto& y) { x &= y; });
+            else if (op == "OrEq") with2(k, src, [&](auto& x, auto& y) { x |= y; });
+            else if (op == "XorEq") with2(k, src, [&](auto& x, auto& y) { x ^= y; });
             else if (op == "Not") with(k, [&](auto& x) { val = bitsval(~x); return 0; });
-            else if (op == "And") with2(k, o, [&](auto& x, auto& y) { val = bitsval(x & y); });
-            else if (op == "Or") with2(k, o, [&](auto& x, auto& y) { val = bitsval(x | y); });
-            else if (op == "Xor") with2(k, o, [&](auto& x, auto& y) { val = bitsval(x ^ y); });
+            else if (op == "And") with2(k, src, [&](auto& x, auto& y) { val = bitsval(x & y); });
+            else if (op == "Or") with2(k, src, [&](auto& x, auto& y) { val = bitsval(x | y); });
+            else if (op == "Xor") with2(k, src, [&](auto& x, auto& y) { val = bitsval(x ^ y); });
             else if (op == "Shl") with(k, [&](auto& x) { val = bitsval(x << size_t(a.num("p"))); return 0; });
             else if (op == "Shr") with(k, [&](auto& x) { val = bitsval(x >> size_t(a.num("p"))); return 0; });
-            else if (op == "Swap") s[k].own->swap(*s[o].own);
-            else if (op == "At") with(k, [&](auto& x) { const auto& cx = x; bool b = cx.at(size_t(a.num("i"))); val = b ? "[1]" : "[0]"; return 0; });
+            else if (op == "Swap")
+            {
+                const vj::value* hv = a.find("how");
+                std::string how = hv ? hv->s : "member";
+                if (s[k].is_view() != s[src].is_view()) throw desync();
+                if (s[k].is_view())
+                {
+                    // two views exchange the memory they refer to (member swap only)
+                    if (how != "member") throw desync();
+                    view(k).swap(view(src));
+                    // the caller memory each view now refers to goes with it
+                    if (k != src) { std::swap(s[k].mem, s[src].mem); std::swap(s[k].nmem, s[src].nmem); }
+                }
+                else if (how == "member") own(k).swap(own(src));
+                else if (how == "std") std::swap(own(k), own(src));
+                else if (how == "adl") { using std::swap; swap(own(k), own(src)); }
+                else { std::fprintf(stderr, "script: bad swap kind %s\n", how.c_str()); std::exit(3); }
+            }
+            else if (op == "At")
+            {
+                // c = "c": the const overload; "m": the non-const one
+                const vj::value* cv = a.find("c");
+                bool nonconst = cv && cv->s == "m";
+                with(k, [&](auto& x) { const auto& cx = x; bool b = nonconst ? bool(x.at(size_t(a.num("i")))) : bool(cx.at(size_t(a.num("i")))); val = b ? "[1]" : "[0]"; return 0; });
+            }
             else if (op == "Read")
             {
                 const std::string& path = a.str("path");
@@ -210,6 +306,9 @@ struct machine
                     else if (path == "riter") b = *(x.rbegin() + std::ptrdiff_t(x.size() - 1 - i));
                     else if (path == "criter") b = *(x.crbegin() + std::ptrdiff_t(x.size() - 1 - i));
                     else if (path == "neg") b = ~x[i];
+                    else if (path == "data") b = ((x.data()[i / W] >> (i % W)) & 1) != 0;          // non-const data()
+                    else if (path == "cdata") b = ((cx.data()[i / W] >> (i % W)) & 1) != 0;        // const data()
+                    else if (path == "blockit") b = ((*(cx.block_begin() + std::ptrdiff_t(i / W)) >> (i % W)) & 1) != 0;
                     else { std::fprintf(stderr, "script: bad read path %s\n", path.c_str()); std::exit(3); }
                     val = b ? "[1]" : "[0]";
                     return 0;
@@ -228,7 +327,8 @@ struct machine
                         else if (wk == "or") r |= v;
                         else if (wk == "xor") r ^= v;
                         else if (wk == "flip") r.flip();
-                        else if (wk == "aref") { auto src = x[j]; r = src; }
+                        else if (wk == "aref") { auto src_r = x[j]; r = src_r; }
+                        else if (wk == "ptr") { auto p = &r; *p = v; }          // through the reference's address-of closure
                         else { std::fprintf(stderr, "script: bad write kind %s\n", wk.c_str()); std::exit(3); }
                     };
                     if (path == "index") apply(x[i]);
@@ -241,11 +341,20 @@ struct machine
                     return 0;
                 });
             }
+            else if (op == "Fill")
+            {
+                // std::fill over the iterator range [i, j) of the container
+                size_t i = size_t(a.num("i")), j = size_t(a.num("j"));
+                bool v = a.num("v") != 0;
+                with(k, [&](auto& x) { std::fill(x.begin() + std::ptrdiff_t(i), x.begin() + std::ptrdiff_t(j), v); return 0; });
+            }
             else { std::fprintf(stderr, "script: unknown op %s\n", op.c_str()); std::exit(3); }
         }
+        catch (const desync&) { exc = "desync"; }
         catch (const std::out_of_range&) { exc = "out_of_range"; }
         catch (const std::runtime_error&) { exc = "runtime_error"; }
         catch (const std::exception&) { exc = "other"; }
+        catch (...) { exc = "nonstd"; }
         return std::string("{\"exc\":\"") + exc + "\",\"val\":" + (std::strcmp(exc, "none") ? "[]" : val) + "}";
     }
 
@@ -256,10 +365,11 @@ struct machine
         while (std::getline(std::cin, line))
         {
             if (line.empty()) continue;
+            arm_cpu_limit();
             vj::value e = vj::parse(line);
             std::string res = step(e);
             bool eq, ne;
-            with2(0, 1, [&](auto& x, auto& y) { eq = (x == y); ne = (x != y); });
+            with2(0, 1, [&](auto& x, auto& y) { const auto& cx = x; const auto& cy = y; eq = (cx == cy); ne = (cx != cy); });
             // echo the call (op, k, a) and append what was observed
             std::string head = line.substr(0, line.rfind('}'));
             std::string st = "{\"o\":[" + proj(0) + "," + proj(1) + "],\"eq\":" + (eq ? "true" : "false") + ",\"ne\":" + (ne ? "true" : "false") + "}";
@@ -272,6 +382,7 @@ struct machine
 int main(int argc, char** argv)
 {
     vj::install_crash_handlers();
+    std::signal(SIGPROF, on_cpu_limit);
     int W = argc > 1 ? std::atoi(argv[1]) : 8;
     switch (W)
     {
